@@ -42,7 +42,7 @@ type caseRun struct {
 	ln       net.Listener   // rig b (outer listener given to Serve)
 	serveRet chan error     // rig b
 
-	tracker *connTracker         // rig b, family ctl: the proxy's side of every accepted socket
+	tracker *connTracker         // rig b, family ctl (and rig a, family runend, when Close latencies are scripted): the proxy's side of every accepted socket
 	reg     *prometheus.Registry // rig a, family runend: the proxy's metrics
 	sigSet  []int                // rig a: the ShutdownSignals the proxy runs with (numbers)
 
@@ -335,8 +335,15 @@ func (cr *caseRun) startA() error {
 		routes = append(routes, rig.Route(cr.upHost(), "3128", cr.upstream.Addr))
 	}
 	redirect := forwarder.DialRedirectFromHostPortPairs(routes)
+	var wrap func(net.Listener) net.Listener
+	if cr.c.Family == "runend" && !cr.c.TLS && !cr.c.PP && cr.c.closeScripted() {
+		// on top of the proxy's own listener: what martian serves (and closes) is the tracked connection
+		cr.tracker = newConnTracker(cr.c.Conns)
+		wrap = func(l net.Listener) net.Listener { return &trackListener{Listener: l, t: cr.tracker} }
+	}
 	p, err := rig.StartProxy(rig.ProxyOpts{
-		ConnectTo: routes,
+		ConnectTo:    routes,
+		WrapListener: wrap,
 		Transport: func(tc *forwarder.HTTPTransportConfig) {
 			// the dial of a "dial" connection's CONNECT is held back here (the redirect runs before the dialer
 			// connects); with an upstream proxy the upstream proxy holds back its 200 instead
@@ -426,7 +433,8 @@ func (cr *caseRun) startB() error {
 		return err
 	}
 	cr.addr = l.Addr().String()
-	cr.tracker = &connTracker{open: map[int]struct{}{}}
+	cr.tracker = newConnTracker(cr.c.Conns)
+	cr.tracker.tls = cr.c.TLS
 	if cr.c.Family == "ctl" {
 		// below TLS: martian looks for *tls.Conn at the top
 		l = &trackListener{Listener: l, t: cr.tracker}
